@@ -18,17 +18,18 @@ GLOBAL_BASE = 0x1000          # object ids of globals start here
 FUNC_BASE = 0x00800000        # object ids of functions
 
 class Gen:
-    def __init__(s, mod, check_ub=True):
+    def __init__(s, mod, check_ub=True, slot=0):
         s.mod = mod; s.check_ub = check_ub
         s.gaddr = {}; s.faddr = {}; s.fpy = {}
-        i = GLOBAL_BASE
+        # several units may be loaded into one process: each gets its own id range for globals and functions
+        i = GLOBAL_BASE + slot * 0x80000
         for k, n in mod.order:
             if k == 'g':
                 s.gaddr[n] = i << 32; i += 1
-        j = FUNC_BASE
+        j = FUNC_BASE + slot * 0x80000; j0 = j
         for k, n in mod.order:
             if k == 'f':
-                s.faddr[n] = j << 32; s.fpy[n] = 'F%d' % (j - FUNC_BASE); j += 1
+                s.faddr[n] = j << 32; s.fpy[n] = 'F%d' % (j - j0); j += 1
         # aliases (e.g. C1 -> C2 constructors)
         def alias_target(v):
             while v and v[0] == 'ccast': v = v[3]
